@@ -37,14 +37,15 @@ structure Tok where
   len : Nat
 deriving Repr, BEq, DecidableEq
 
-/-- the repaired loop: start = the token whose offset is a; end = the first token reaching b -/
+/-- the repaired loop: start = the token whose offset is a; end = the last token that starts
+before b (`if tok.Offset == a {start = i}; if tok.Offset >= b {break}; end = i`) -/
 def exactRange (toks : List Tok) (a b : Nat) : Nat × Nat :=
-  let rec go : List Tok → Nat → Nat → Nat × Nat
-    | [], _, start => (start, 0)           -- no end token found: `end` keeps its zero value
-    | t :: ts, i, start =>
+  let rec go : List Tok → Nat → Nat → Nat → Nat × Nat
+    | [], _, start, stop => (start, stop)
+    | t :: ts, i, start, stop =>
       let start' := if t.offset = a then i else start
-      if t.offset + t.len ≥ b then (start', i) else go ts (i + 1) start'
-  go toks 0 0
+      if t.offset ≥ b then (start', stop) else go ts (i + 1) start' i
+  go toks 0 0 0
 
 /-! ### nearestMatch exact shortcut -/
 
